@@ -266,7 +266,7 @@ func checkLin(ctx *pbt.Ctx, c LinCase) error {
 }
 
 func genLin(t *rapid.T) LinCase {
-	c := LinCase{Rounds: rapid.SampledFrom([]int{200, 600, 1500}).Draw(t, "rounds"), Procs: rapid.SampledFrom([]int{2, 4, 16}).Draw(t, "procs"), Busy: rapid.Bool().Draw(t, "busy")}
+	c := LinCase{Rounds: rapid.SampledFrom([]int{150, 400, 1000}).Draw(t, "rounds"), Procs: rapid.SampledFrom([]int{2, 4, 16}).Draw(t, "procs"), Busy: rapid.Bool().Draw(t, "busy")}
 	n := rapid.SampledFrom([]int{2, 2, 3}).Draw(t, "ops")
 	for i := 0; i < n; i++ {
 		c.Ops = append(c.Ops, LinOp{K: rapid.SampledFrom(linKinds).Draw(t, "k"), M: rapid.SampledFrom([]int{0, 0, 0, 1}).Draw(t, "m"),
@@ -277,7 +277,7 @@ func genLin(t *rapid.T) LinCase {
 
 func TestAtomic(t *testing.T) {
 	pbt.Run(t, pbt.Sub[LinCase]{
-		Name: "atomic", Quick: 160, Thorough: 3000,
+		Name: "atomic", Quick: 96, Thorough: 3000,
 		Gen: genLin, Check: checkLin, Precommit: true,
 	})
 }
